@@ -245,6 +245,8 @@ class Item:
     dmetas: List[DM] = dfield(default_factory=list)
     repr: Optional[str] = None
     where_clause: bool = False       # render bounds in a where-clause instead of inline
+    repr_form: Optional[List[str]] = None   # how #[repr] is WRITTEN: one entry per attribute, e.g. ["C, u8"], ["u8", "C"], ["align(8)", "i16"]
+                                            # (`repr` stays the integer type: that is what rustc uses and what the model sees)
     groups: Optional[List[int]] = None
 
     def sexp(self) -> str:
@@ -332,7 +334,10 @@ def render_item(it: Item, derives: List[str], bounds: str = "", extra_attrs: Lis
         lines.append("#[derive(%s)]" % ", ".join(derives))
     for a in extra_attrs:
         lines.append(a)
-    if it.repr:
+    if it.repr_form:
+        for r in it.repr_form:
+            lines.append("#[repr(%s)]" % r)
+    elif it.repr:
         lines.append("#[repr(%s)]" % it.repr)
     for g in split_groups(it.metas, it.groups):
         lines.append("#[strum(%s)]" % ", ".join(m.rust() for m in g))
